@@ -186,3 +186,8 @@ func zzC07UnmarshalJSONContract() {
 	}
 	verifReach("end")
 }
+
+//verif:harness C07 grease_ech_write_arbitrary_ids unwind=300
+//verif:expect end
+//verif:doc The C07 half of C08 grease_ech_write: the GREASE-ECH decoder (reached from FromRaw / FingerprintClientHello for any hello with an encrypted_client_hello extension) on a structurally well-formed outer ECH body with ARBITRARY 16-bit KDF and AEAD identifiers, config id, 1..2 key bytes and a payload of 1..20 bytes: returns an error or a faithful copy, never panics.
+func zzC07GreaseECHWriteArbitraryIDs() { zzGreaseECHWriteBody() }
